@@ -91,7 +91,7 @@ func TestVerifC13Calibrate(t *testing.T) {
 	}
 	var ops []op
 	ops = append(ops, op{0, 0}, op{1, 0}, op{2, 0})
-	for _, c := range []int{vOK, vPrep, vStep, vRead, vRet, vReadPrep, vBegin, vCommit, vRollback, vEmpty} {
+	for _, c := range []int{vOK, vPrep, vStep, vRead, vRet, vReadPrep, vBegin, vCommit, vRollback, vEmpty, vRetStep} {
 		ops = append(ops, op{3, c}, op{4, c})
 	}
 	ctx := context.Background()
